@@ -34,6 +34,14 @@ impl Check for C12 {
         scenario_strategy(&p)
     }
 
+    fn extra(&self, tier: Tier, seed: u64) -> ExtraResult {
+        if tier != Tier::Thorough {
+            return ExtraResult::default();
+        }
+        // coverage-guided search over the same scenario space with the same oracle (harness/fuzz, target pair_oracles)
+        crate::props::pairfuzz::pair_fuzz_extra("C12", seed, 250_000, &|sc| self.run(sc), &|sc| serde_json::to_value(sc).unwrap_or_default())
+    }
+
     fn cases(&self, tier: Tier) -> u64 {
         tier.pick(30_000, 1_000_000)
     }
